@@ -3,11 +3,13 @@ C04, inherited members: soundness of `resolveName` for dotted names whose attrib
 an INHERITED member of a class, for the decidable sub-class `classImportsUnique` of `WF`.
 
 Why no reasoning about the ORDER of the MRO (nor about how the bases are resolved) is needed: names of
-definitions are globally unique (`namesUnique`), and `classImportsUnique` makes the class that binds a
-name by an import unique too — so "some class binds `y`" determines the binding.  `Step` is the
-over-approximation of Python's `type.__getattribute__`: the attribute is found in the class's own
-namespace, or in the namespace of SOME class.  pydoctor's `classLookup` walks ITS linearisation and
-finds the name in the contents / alias map of some class object; both finds are the same binding.
+definitions are globally unique (`namesUnique`), and `classImportsUnique` says that a name bound by an
+import inside a class body is not the name of a definition made inside a class body and that the imports
+binding it in other class bodies bind it to the same thing — so the BINDING of an attribute name is the
+same in every class body that binds it (`class_bind_same`).  `Step` is the over-approximation of Python's
+`type.__getattribute__`: the attribute is found in the class's own namespace, or in the namespace of SOME
+class.  pydoctor's `classLookup` walks ITS linearisation and finds the name in the contents / alias map
+of some class object; both finds are the same binding (`content_den`, `alias_den`).
 -/
 import PdProps.C04Base
 
